@@ -20,6 +20,11 @@ class ProgramCheck(Check):
             dict(max_nodes=5, min_nodes=5, leaves=U.LEAVES[3:5], loops=("n",), subs=("n",)),
         ]
 
+    def extra_specs(self, tier):
+        """the second leaf menu of the universe (register parameter indexed by a parameter, parameterless macros
+        whose nested calls sit inside loops), in small trees of its own"""
+        return U.extra_specs(tier)
+
     def nbhd_k(self, tier):
         return 2
 
@@ -52,7 +57,7 @@ class ProgramCheck(Check):
         if kind == "pool":
             import itertools
 
-            yield from itertools.islice(U.pool(self.specs(tier), self.natives), i, None, self.pool_shards)
+            yield from itertools.islice(U.pool(self.specs(tier) + self.extra_specs(tier), self.natives), i, None, self.pool_shards)
         else:
             base = self.bases(tier)[shard[2]] if len(shard) > 2 else self.base
             if i == -1:
@@ -75,5 +80,5 @@ class ProgramCheck(Check):
                 yield cand
 
     def bounds(self, tier):
-        return {"pool": [{k: (len(v) if k == "leaves" else v) for k, v in s.items()} for s in self.specs(tier)],
+        return {"pool": [{k: (len(v) if k == "leaves" else v) for k, v in s.items()} for s in self.specs(tier) + self.extra_specs(tier)],
                 "neighbourhood_deviations": self.nbhd_k(tier)}
